@@ -126,15 +126,17 @@ class ThermalFluidMaterial:
         """
         re = self.reynolds(self.T_effective(T), u, r)
         pr = self.prandtl(self.T_effective(T))
-        f = (0.79 * jnp.log(re) - 1.64) ** -2.0
+        laminar = re < self.laminar_cutoff
+        # Evaluate the correlation away from the laminar range so that the
+        # unused branch stays finite (values and derivatives)
+        re_t = jnp.where(laminar, self.laminar_cutoff, re)
+        f = (0.79 * jnp.log(re_t) - 1.64) ** -2.0
 
-        turbulent = ((f / 8.0) * (re - 1000.0) * pr) / (
+        turbulent = ((f / 8.0) * (re_t - 1000.0) * pr) / (
             1.0 + 12.7 * (f / 8.0) ** 0.5 * (pr ** (2.0 / 3.0) - 1.0)
         )
 
-        turbulent.at[re < self.laminar_cutoff].set(self.laminar_value)
-
-        return turbulent
+        return jnp.where(laminar, self.laminar_value, turbulent)
 
 
 class PolynomialThermalFluidMaterial(ThermalFluidMaterial):
